@@ -63,6 +63,10 @@ def _c08_shrink(toks):
     return out
 
 
+def _c10_tags(toks, impl):
+    return ["type=" + toks[1], "op=" + toks[2]] + (["answer=panic"] if impl == "panic" else [])
+
+
 PROPS = {
     "C07": {
         "lean_modules": ["Dbg.Props.C07"],
@@ -93,5 +97,22 @@ PROPS = {
                 "assertion). Non-trivial = at least two reads and some read split into >= 2 pieces.",
         "trusted_base": ["modelled, not verified: Vmer::from_slice / get of each container reproduce the bases written (that is C13/C14/C17)"],
         "assumptions": ["permutation indices are in range (the crate indexes perm[rank] unchecked otherwise)"],
+    },
+    "C10": {
+        "lean_modules": ["Dbg.Props.C10"],
+        "theorems": ["Kmer.shipped_wf", "Kmer.shipped_count", "Kmer.C10_get", "Kmer.C10_set", "Kmer.C10_set_inv", "Kmer.C10_extendRight",
+                     "Kmer.C10_extendLeft", "Kmer.C10_fromBytes"],
+        "partial": ["not yet proved (decided by execution against the string-level reference only): rc (ladder), set_slice_mut, to_u64/from_u64, "
+                    "hamming_dist, at_count/gc_count, to_string, from_ascii, min_rc/is_palindrome, kmers_from_bytes/ascii"],
+        "n_quick": 40000, "n_thorough": 4000000,
+        "nontrivial": lambda toks, impl: impl != "panic", "tags": _c10_tags,
+        "rule": "requests `<type> <op> <args>` over all 19 shipped k-mer types and 18 operations (get, set, setslice with garbage below the "
+                "run, extl, extr, rc, tou64, fromu64, ham, at, gc, tostr, frombytes, fromascii with non-ACGT noise, minrc(+flip,+palindrome), "
+                "cmp, kmers_from_bytes/ascii); k-mers drawn uniformly from all 4^K values for K<=8 and from a biased family (all-A, all-T, "
+                "alternating, one-hot lane, s++rc(s), uniform) otherwise; 1/12 too-short inputs for the constructors. k-mers travel as raw "
+                "storage words so that bits outside the K lanes are observable. Non-trivial = the real operation did not panic.",
+        "trusted_base": ["modelled, not verified: num_traits PrimInt shifts/conversions behave as the primitive integer operations; count_ones is "
+                         "the number of set bits"],
+        "assumptions": ["arguments in range (pos < K, base < 4, 1 <= n <= min(32, K-pos), rank < 4^K)"],
     },
 }
